@@ -58,7 +58,7 @@ Init ==
   /\ \/ /\ mode = "subset"          \* one site, or (MaxSites = 2) an ordered pair of sites, with every move
         /\ \E i \in SiteSet(s) : \E mi \in MovesAt(Seeds[s].toks[i]) :
               \/ sites = (i :> mi)
-              \/ /\ MaxSites >= 2
+              \/ /\ MaxSites >= 2 /\ Seeds[s].pairs       \* pairs of sites only for the seeds the driver marked (the short ones)
                  /\ \E j \in {x \in SiteSet(s) : x > i} : \E mj \in MovesAt(Seeds[s].toks[j]) :
                        sites = (i :> mi) @@ (j :> mj)
      \/ /\ mode = "all"          \* every site moved at once, one choice of move per kind
